@@ -9,6 +9,9 @@ from .. import genv as G
 
 PROBES = ["abc", "xb", "zzz", "missing.one", "a", "", "cls-x", "b.c"]
 GOOD_PATS = [".*", "^a", "b$", "^zzz$", "one", "^missing\\.one$", "cls-x", "^b\\.c$"]
+# outside the modelled sub-language (judged on the implementation's own reports only): each compiles alone, but the
+# two \\w{200} patterns exceed the regex crate's compiled-size limit as one set
+RICH_PATS = [["\\w{200}", "a\\w{200}"], ["\\w{200}"], ["^\\w+$"], ["(?i)^ABC$"], ["^.{2}$", "\\d"], ["a\\w{200}", "\\w{200}", "^a"]]
 BAD_PATS = ["(", "[a", "*"]
 
 
@@ -47,6 +50,7 @@ CLAUSES = [
     C("file", [("ignore_class_notfound", True)], steps=[["set_patterns", ["^zzz$", "("]], ["set_patterns", ["^a"]], ["set_patterns", ["["[:1] + "a"]],
                                                          ["set_flag"], ["unset_flag"], ["set_flag"], ["clear_flags"], ["set_patterns", []]]),
     C("ctor", ctor={"ignore": True}, steps=[["set_patterns", ["("]], ["set_patterns", ["*"]], ["set_patterns", ["b$"]]]),
+    C("ctor", ctor={"ignore": True}, steps=[["set_patterns", ["^a"]], ["set_patterns", ["\\w{200}", "a\\w{200}"]], ["set_patterns", ["\\w{200}"]], ["set_patterns", ["("]]]),
     C("ctor", ctor={"nodes": "x", "classes": "x"}), C("ctor", ctor={"nodes": "x", "classes": "x/y"}), C("ctor", ctor={"nodes": "a/../b", "classes": "./c"}),
     # D15 (known finding): a path option that YAML must quote keeps its quotes via file/dict
     C("file", [("nodes_uri", "123")]),
@@ -149,6 +153,8 @@ class C20(Prop):
                     ps = [r.choice(GOOD_PATS) for _ in range(r.range(0, 3))]
                     if r.chance(30, 100):
                         ps.insert(r.below(len(ps) + 1), r.choice(BAD_PATS))
+                    if r.chance(6, 100):
+                        ps = list(r.choice(RICH_PATS))
                     steps.append([s, ps])
                 else:
                     steps.append([s])
@@ -186,6 +192,23 @@ class C20(Prop):
             elif "ok" in d and d["ok"] != f["ok"]:
                 why.append("dict and file routes give different configurations: %s vs %s" % (d["ok"], f["ok"]))
             return dict(agree=True, spec_ok=None, impl_oracle=(False if why else None), concrete=bool(why), why="; ".join(why))
+        if "bad" in reply and "outside the modelled regex" in str(reply["bad"]) and isinstance(impl, dict) and "build" in impl:
+            # patterns the model does not cover: only the statement's self-consistency clause is evaluated, on the
+            # implementation's own reports (a failed call must leave reported = effective)
+            why, oracle = [], None
+            states = []
+            if "ok" in (impl.get("build") or {}):
+                states.append(("construction", impl["build"]["ok"]))
+            for k, h in enumerate(impl.get("history") or []):
+                states.append(("step %d" % k, h["state"]))
+            for name, st in states:
+                exp = expect_probes(st)
+                if exp == "invalid" or (exp is not None and exp != st["probes"]):
+                    oracle = False
+                    why.append("%s: reports ignore=%s patterns=%s but decides %s on the probes (reported settings predict %s)" % (
+                        name, st["ignore"], [q[:24] for q in st["patterns"]], st["probes"], exp))
+                    break
+            return dict(agree=True, spec_ok=None, impl_oracle=oracle, why="; ".join(why), concrete=(oracle is False))
         if "bad" in reply:
             return dict(agree=False, spec_ok=None, why="model rejected: %s" % reply["bad"], skip=True)
         if not isinstance(impl, dict) or ("bad" in impl and "build" not in impl):
@@ -201,6 +224,11 @@ class C20(Prop):
         elif bi[0] == "ok" and bi != bm:
             why.append("configuration after construction differs")
         hi, hm = impl.get("history"), model.get("history")
+        # the model answers "failed, unchanged" for pattern lists outside its regex sub-language: from the first such
+        # step on only the implementation-only oracle below applies
+        cut = next((k for k, st in enumerate(req.get("steps") or []) if st[0] == "set_patterns" and any(list(st[1]) == list(x) for x in RICH_PATS)), None)
+        if cut is not None and hi is not None and hm is not None:
+            hi, hm = hi[:cut], hm[:cut]
         if bi[0] == "ok" and hi is not None and hm is not None and hi != hm:
             for k, (a, b) in enumerate(zip(hi, hm)):
                 if a != b:
